@@ -125,7 +125,7 @@ theorem stepByte_next {cap blk rle st} (x : UInt8) (h : Rel cap blk rle st)
     by_cases hx : x = c
     · subst hx
       refine ⟨⟨?_, ?_, ?_, ?_⟩, ?_⟩ <;> simp [stepSt, hm, lenSt] <;> omega
-    · refine ⟨⟨?_, ?_, ?_, ?_⟩, ?_⟩ <;> simp [stepSt, hx, hm, lenSt, flush] <;> omega
+    · refine ⟨⟨?_, ?_, ?_, ?_⟩, ?_⟩ <;> simp [stepSt, hx, lenSt, flush] <;> omega
   · simp only [h0, if_false] at hs
     split at hs
     · rename_i hlt
@@ -180,7 +180,7 @@ theorem stepByte_next {cap blk rle st} (x : UInt8) (h : Rel cap blk rle st)
           obtain ⟨rfl, rfl⟩ := hs
           have hmax' : r + 1 = maxRun := hmax
           refine ⟨⟨?_, ?_, ?_, ?_⟩, ?_⟩
-          · simp [stepSt, hmax', hb, flush, hm, hm', List.replicate]
+          · simp [stepSt, hmax', hb, flush, hm, List.replicate]
           · simp [stepSt, hmax']
           · simp [stepSt, hmax']
           · simp [stepSt, hmax']
